@@ -44,7 +44,7 @@ CHECKS['C01'] = dict(level='translation_validation', ref='4/C01',
    text="Per program: the binary emitted by the xcmp built from the working tree runs on the IR of hexsim::Processor::run with symbolic input bytes and symbolic 32-bit initial values of designated globals; the independent X reference interpreter runs the source on the same symbols; z3 proves for every pair of reference path and binary path equal outputs, input consumption and exit value. Programs: bounded-exhaustive expression generator x contexts, control-flow/recursion/array/string skeletons, shipped tests/x.",
    note=TVNOTE)
 CHECKS['C07'] = dict(level='translation_validation', ref='4/C07',
-   text="Compositional: ConstProp's folding of the ten binary and two unary operators on real AST nodes equals the reference operator for all 2^64 operand pairs (z3); val propagation yields the declared constant; constants materialise exactly (X literals through the whole compiler with every digit symbolic, C04, DATA emission, immediate/pool threshold programs); every operator/placement with variable and with constant operands is translation-validated against the reference for all values.",
+   text="Compositional: ConstProp's folding of the ten binary and two unary operators on real AST nodes equals the reference operator for all 2^64 operand pairs (z3); val propagation yields the declared constant; constants materialise exactly (X literals through the whole compiler with every digit symbolic, C04, DATA emission, immediate/pool threshold programs, pairs of pool constants differing in each single bit); every operator/placement with variable and with constant operands is translation-validated against the reference for all values.",
    note=TVNOTE)
 CHECKS['C08'] = dict(level='translation_validation', ref='4/C08',
    text="A monitor on the translation-validation runs checks every fetch, load and store made while the compiled program runs: word index below 200000, no store into a fetched word, stores only into DATA words or above the image, stack pointer never above its load-time value and restored when main returns; symbolic addresses are decided by z3.",
